@@ -34,6 +34,8 @@ def payout(A):
 
 
 def run(W, chk):
+    from rules.common import borrow as _b2
+    _b2(W, chk, "C11", {"CUT-create-farm"}, "a farm's budget is funded in full, so cumulative payouts never exceed what was paid in")
     from rules.common import borrow
     borrow(W, chk, "C10", {"CUT-withdraw-open-only", "AGREE-twin-update"}, "the total weight rewards are divided by is updated exactly once per position change")
     A = W.run(FM, "execute", ("Claim",))
